@@ -5,7 +5,7 @@ cd "$(dirname "$0")"
 export CARGO_NET_OFFLINE=true
 mkdir -p build evidence replays
 cp /repo/Cargo.lock replay/Cargo.lock
-( cd replay && CARGO_TARGET_DIR=/verif/replay/target cargo build --release --offline --bins ) || echo "warning: replay probes did not build (replay will report it)"
+( cd replay && RUSTFLAGS="--cfg jsonrpsee_verif" CARGO_TARGET_DIR=/verif/replay/target cargo build --release --offline --bins ) || echo "warning: replay probes did not build (replay will report it)"
 printf 'use vstd::prelude::*;\nverus!{ proof fn warm() ensures true {} }\nfn main(){}\n' > build/warm.rs
 verus build/warm.rs >/dev/null 2>&1 || true
 echo setup done
